@@ -46,9 +46,11 @@ class shapefactor_builder:
         moddata = self.collect(thismod, nom)
         self.builder_data[key][sample]['data']['mask'] += moddata['mask']
         if thismod:
-            self.required_parsets.setdefault(
-                thismod['name'],
-                [required_parset(defined_samp['data'], thismod['data'])],
+            # collect the requirement of every place using the modifier, so that
+            # places with different bin counts are caught as conflicting
+            # requirements instead of the first one silently winning
+            self.required_parsets.setdefault(thismod['name'], []).append(
+                required_parset(defined_samp['data'], thismod['data'])
             )
 
     def finalize(self):
